@@ -204,7 +204,7 @@ def children_are_direct(ctx):
             return False
         for d_ in par.all("decl"):
             for v_ in par.nodes[d_].get("vars", []):
-                if v_.get("init") is not None and v_.get("init", -1) >= 0 and any(par.nodes[y].get("usr") == g.usr for y in par.walk(v_["init"])):
+                if v_.get("init") is not None and v_.get("init", -1) >= 0 and any(par.nodes[y].get("lusr") == g.usr for y in par.walk(v_["init"])):
                     holder = v_["name"]
         if holder is None:
             return False
